@@ -122,7 +122,8 @@ def judge(ctx, script, sig, seed, limits=(1024, 1024, 128), variant=0):
     ctx.outcome('raised' if exc is not None else 'ok')
     # through run_script as well: the returned cache has the same str-keyed entries
     try:
-        _, _, c2 = F.run_script(script, copy.deepcopy(init), contracts=dict(stepspace.CONTRACTS))
+        _, _, c2 = F.run_script(script, copy.deepcopy(init), contracts=dict(stepspace.CONTRACTS), stack_max_items=limits[0],
+                                stack_max_item_size=limits[1], callstack_limit=limits[2])
     except BaseException:
         c2 = None
     ctx.ran()
@@ -142,6 +143,11 @@ def attack_case(ctx, idxs):
     if len(idxs) == 2 and not st[idxs[0]][0].startswith(('READ_CACHE', 'WRITE_CACHE')) and \
             not st[idxs[1]][0].startswith(('READ_CACHE', 'WRITE_CACHE')):
         judge(ctx, script, {'family': 'cache attack on typed initial cache'}, ctx.seed, variant=3)
+    if len(idxs) <= 2:
+        # small embedder limits (the cache holds more entries than the stack may hold items, items larger than allowed ...)
+        for lim in ((2, 1024, 128), (4, 1024, 128), (1024, 3, 128), (1024, 1024, 1)):
+            ctx.state((script, lim))
+            judge(ctx, script, {'family': 'cache attack under small limits'}, ctx.seed, limits=lim)
     if len(idxs) == 1:
         # every single cache-touching path, also inside IF / TRY / EVAL, on initial caches whose protected
         # entries have other value types
